@@ -96,7 +96,11 @@ func WriteNexus(tchan <-chan tree.Trees, translate bool) (string, error) {
 		renameTree := t.Tree
 		if translate {
 			renameTree = t.Tree.Clone()
-			renameTree.Rename(taxLabelsMap)
+			// The translate table concerns taxa only: internal node names are
+			// kept (and may be repeated, which Rename refuses)
+			for _, tip := range renameTree.Tips() {
+				tip.SetName(taxLabelsMap[tip.Name()])
+			}
 		}
 		treeBuffer.WriteString("  TREE tree")
 		treeBuffer.WriteString(strconv.Itoa(t.Id))
